@@ -273,6 +273,13 @@ def resolveWeights (weights : Option (List α)) (n : Nat) : Option (List α) :=
   | some w => if w.length ≠ n then none else some w
   | none => some (List.replicate n 1)
 
+/-- The start value of the intercept (F51): the link of the mean response — `mean(y)` for the identity link and (as the
+source has it) for the logistic link, `ln(mean(y))` for the four log-link families. -/
+def initialIntercept (family : Family) (y : List α) : α :=
+  match family with
+  | .gaussian | .bernoulli => mean y
+  | _ => Transc.ln (mean y)
+
 /-- The part of `fit` before the loop: shape checks, default weights, starting point. -/
 def fitInit (family : Family) (x y : List α) (weights offsets : Option (List α)) (alpha tol : α)
     (maxIter : Nat) : Option (Problem α × LoopState α) := do
@@ -282,7 +289,7 @@ def fitInit (family : Family) (x y : List α) (weights offsets : Option (List α
   if !d then none
   else
     let w ← resolveWeights weights n
-    let coef0 := (mean y) :: List.replicate (p - 1) 0
+    let coef0 := initialIntercept family y :: List.replicate (p - 1) 0
     pure ({ family := family, x := x, y := y, n := n, p := p, weights := w, offsets := offsets,
             alpha := alpha, tol := tol, maxIter := maxIter },
           { coef := coef0, pd := none, pdPrev := none, mu := [], dmu := [], var := [], nIter := 0,
